@@ -196,8 +196,11 @@ def _real_r1(w, header):
     qlen = sum(n for op, n in ops if op in (0, 1, 4, 7, 8))
     if qlen < 8:
         return None
-    r = {'query_sequence': head + 'A' * (qlen - 8) + tail, 'cigartuples': ops, 'reference_start': 1000,
-         'reference_end': 1000 + sum(n for op, n in ops if op in (0, 2, 3, 7, 8)), 'mapping_quality': 60,
+    # the model's own start coordinate (the contig start included); only starts beyond the scratch contig are replaced
+    st = a.get('reference_start')
+    st = int(st) if isinstance(st, int) and 0 <= st < 90000 else 1000
+    r = {'query_sequence': head + 'A' * (qlen - 8) + tail, 'cigartuples': ops, 'reference_start': st,
+         'reference_end': st + sum(n for op, n in ops if op in (0, 2, 3, 7, 8)), 'mapping_quality': 60,
          'is_reverse': a['is_reverse'], 'is_read1': True, 'is_paired': False,
          'tags': {t: v for t, (p, v) in a.get('_vc_tags', {}).items() if p and v is not None}}
     seg = B.make_segment(header, r, 'ctgA', 'q')
